@@ -44,7 +44,7 @@ def run(ctx):
         "NOT decided: equality of the re-parsed interface for all parameter lists; nothing about types, "
         "descriptions or default values (value level)",
     ]
-    for rule in (_align_parse, _align_emit, _shape, _keywords, _optional, _falsy, _order_rule, _escape, _exacttype, _hashable):
+    for rule in (_align_parse, _align_emit, _shape, _keywords, _optional, _falsy, _order_rule, _escape, _exacttype, _hashable, _typewalk):
         ctx.section(rule, ctx, index)
     # a round trip is quantified over interfaces: the second emission in a process must not see what the first left
     # behind (C10's call-history rules on the emitters and parsers of the four formats)
@@ -945,3 +945,65 @@ def _escape(ctx, index):
 
 
 __all__ = ["run", "param_roots"]
+
+
+TYPE_EXPR_NODES = frozenset("Name Constant Subscript Tuple List Attribute BinOp".split())
+
+
+def _typewalk(ctx, index, rule="C02.typewalk"):
+    """
+    Whether a default is written quoted (and therefore comes back as a str rather than as code / a number) is decided
+    by `needs_quoting(typ)`: "does the type expression mention `str` or a string literal ANYWHERE". The type is an
+    arbitrary expression — `Optional[Literal['0', '1']]`, `Union[Literal['-1', '+1'], int]`, `str | None`,
+    `Callable[[str], int]`, `typing.Dict[str, int]` — so the decision must come from a COMPLETE traversal of the parsed
+    expression: `ast.walk` / a NodeVisitor, or a hand-written recursion that descends into every node class a type
+    expression can be built from (Name, Constant, Subscript, Tuple, List, Attribute, BinOp for PEP 604 unions).
+    A look at the top level or at the direct arguments only, or a recursion that forgets a node class, answers
+    False for the types it cannot see into, and the str default of such a parameter is emitted unquoted.
+    """
+    nq = index.func("cdd.shared.defaults_utils.needs_quoting")
+    region, todo = [nq], [nq]
+    while todo:
+        g = todo.pop()
+        for n in iter_own(g.node):
+            if isinstance(n, ast.Name):
+                h = index.funcs.get(index.resolve(g.mod, n, g) or "")
+                if h is not None and h.mod is nq.mod and h.outer is None and h not in region and len(region) < 8:
+                    region.append(h)
+                    todo.append(h)
+    complete = None
+    for g in region:
+        for n in iter_own(g.node):
+            if isinstance(n, ast.Call):
+                c = index.callee(g.mod, n, g) or norm(n.func)
+                if c in ("ast.walk", "walk") or c.endswith(".generic_visit"):
+                    complete = (g, n)
+    if complete is not None:
+        ctx.ob(rule, nq, "the type expression is traversed completely ({})".format(short(complete[1], 40)), True, line=complete[1].lineno)
+        return
+    recursive = [g for g in region if any(isinstance(n, ast.Name) and n.id == g.node.name for n in iter_own(g.node))]
+    handled = set()
+    for g in recursive:
+        for n in iter_own(g.node):
+            if isinstance(n, ast.Call) and norm(n.func) == "isinstance" and len(n.args) == 2:
+                for x in n.args[1].elts if isinstance(n.args[1], ast.Tuple) else [n.args[1]]:
+                    handled.add(norm(x).rpartition(".")[2])
+    missing = sorted(TYPE_EXPR_NODES - handled) if recursive else sorted(TYPE_EXPR_NODES)
+    ok = bool(recursive) and not missing
+    ctx.ob(
+        rule,
+        nq,
+        "the type expression is traversed completely",
+        ok,
+        ""
+        if ok
+        else (
+            "needs_quoting no longer walks the whole type expression: {} — a str default under such a type is judged not to need "
+            "quotes, is emitted bare and comes back as code or as a number".format(
+                "its hand-written recursion ({}) does not descend into {}".format(", ".join(g.node.name for g in recursive), ", ".join(missing))
+                if recursive
+                else "it looks at a fixed number of levels only (no ast.walk, no recursion)"
+            )
+        ),
+        line=nq.node.lineno,
+    )
